@@ -363,6 +363,8 @@ def gen_consts():
     by_units = len(parts) == 2 and all("kwargs" in v and "td." not in v for v in parts.values())
     hint = any(isinstance(n, ast.Call) and ast.unparse(n.func).endswith("tz.localize") and any(k.arg == "is_dst" and "now.dst()" in ast.unparse(k.value) for k in n.keywords) for n in ast.walk(fp))
     emit("/-- freshness_date_parser.py _parse_date (pytz branch): the calendar / clock split is made on the units the phrase counts (kwargs), not on the normalised relativedelta -/\ndef freshSplitByPhraseUnits : Bool := " + lbool(by_units))
+    corrects = any(isinstance(n, ast.If) and "utcoffset()" in ast.unparse(n.test) and any(isinstance(x, ast.Assign) and "utcoffset()" in ast.unparse(x.value) for x in n.body) for n in ast.walk(fp))
+    emit("/-- freshness_date_parser.py _parse_date (other zones): when the offset changes across the clock part the wall clock is moved by the difference -/\ndef freshLocalZoneCorrects : Bool := " + lbool(corrects))
     emit("/-- freshness_date_parser.py _parse_date (pytz branch): `tz.localize` is given the reference's DST flag -/\ndef freshLocalizeUsesDstHint : Bool := " + lbool(hint))
     t = Src("dateparser/timezone_parser.py")
     emit("/-- timezone_parser.py _load_offsets: exception names caught around the cache read -/")
